@@ -139,6 +139,51 @@ type ssmEnv struct {
 	noSnapOnClose bool
 	// broken is set once the table no longer matches: the history stops there
 	broken bool
+	// parked read transactions on an external read-only connection (invisible to the model):
+	// a reader at the end of the WAL lets a checkpoint move every page but not truncate the WAL
+	ro      *dbsql.DB
+	readers []*dbsql.Conn
+}
+
+// park starts a read transaction at the current end of the WAL on an external connection.
+func (e *ssmEnv) park() {
+	if e.ro == nil {
+		ro, err := dbsql.Open("rqlite-sqlite3", sql.MakeDSN(e.s.dbPath, sql.ModeReadOnly, false, true))
+		if err != nil {
+			e.t.Fatal(err)
+		}
+		e.ro = ro
+	}
+	ctx := context.Background()
+	c, err := e.ro.Conn(ctx)
+	if err != nil {
+		e.t.Fatal(err)
+	}
+	if _, err := c.ExecContext(ctx, "BEGIN"); err != nil {
+		e.t.Fatal(err)
+	}
+	var n int
+	if err := c.QueryRowContext(ctx, "SELECT count(*) FROM kv").Scan(&n); err != nil {
+		e.t.Fatal(err)
+	}
+	e.readers = append(e.readers, c)
+	e.hist = append(e.hist, "reader-parked-at-wal-end")
+}
+
+// unpark ends the oldest `n` parked readers (all of them for n < 0).
+func (e *ssmEnv) unpark(n int) {
+	for len(e.readers) > 0 && n != 0 {
+		c := e.readers[0]
+		e.readers = e.readers[1:]
+		c.ExecContext(context.Background(), "ROLLBACK")
+		c.Close()
+		n--
+		e.hist = append(e.hist, "reader-released")
+	}
+	if len(e.readers) == 0 && e.ro != nil {
+		e.ro.Close()
+		e.ro = nil
+	}
 }
 
 func ssmTempRoot() string {
@@ -146,6 +191,107 @@ func ssmTempRoot() string {
 		return "/dev/shm"
 	}
 	return ""
+}
+
+
+// ---- robustness under machine load ---------------------------------------------------
+// A loaded machine makes a freshly elected leader lose its lease, elections repeat and
+// requests time out. None of that is the property. Requests refused BEFORE they enter the log
+// are retried (up to 60 s); an outcome that is ambiguous (leadership lost while committing) or
+// a wait that runs out ABANDONS the case: counted, noted, never judged. More than half of the
+// cases abandoned fails the run as "harness could not run".
+
+type ssmAbandoned struct{ why string }
+
+var ssmCasesStarted, ssmCasesAbandoned int
+
+func ssmErrText(err error) string {
+	if err == nil {
+		return ""
+	}
+	return strings.ToLower(err.Error())
+}
+
+// ssmRetryable: the request was refused before entering the log.
+func ssmRetryable(err error) bool {
+	if err == nil {
+		return false
+	}
+	if err == ErrNotLeader || err == ErrNotReady {
+		return true
+	}
+	t := ssmErrText(err)
+	for _, m := range []string{"not leader", "leader not found", "timeout waiting for leader", "timed out enqueuing", "no leader", "not ready"} {
+		if strings.Contains(t, m) {
+			return true
+		}
+	}
+	return false
+}
+
+// ssmLoadRelated: any error a loaded machine produces, retryable or ambiguous.
+func ssmLoadRelated(err error) bool {
+	if ssmRetryable(err) {
+		return true
+	}
+	t := ssmErrText(err)
+	for _, m := range []string{"leadership lost", "timeout", "timed out", "deadline exceeded", "leadership transfer", "shutdown"} {
+		if strings.Contains(t, m) {
+			return true
+		}
+	}
+	return false
+}
+
+func ssmAbandonNow(why string) { panic(ssmAbandoned{why}) }
+
+// ssmRetry runs fn until it succeeds or fails with something that is not "refused before the
+// log"; between attempts it waits for a leader. Budget 60 s.
+func ssmRetry(s *Store, fn func() error) error {
+	deadline := time.Now().Add(60 * time.Second)
+	for {
+		err := fn()
+		if err == nil || !ssmRetryable(err) || time.Now().After(deadline) {
+			return err
+		}
+		s.WaitForLeader(5 * time.Second)
+		time.Sleep(100 * time.Millisecond)
+	}
+}
+
+// opFailed: a setup operation returned err. Load-related: abandon the case; else harness breakage.
+func (e *ssmEnv) opFailed(what string, err error) {
+	if ssmLoadRelated(err) {
+		ssmAbandonNow(fmt.Sprintf("%s: %v", what, err))
+	}
+	e.t.Fatalf("%s: %v (history %v)", what, err, e.hist)
+}
+
+// ssmGuard is deferred FIRST by every history function: an abandoned case is counted and noted,
+// the trace emitted so far (consistent up to the abandoned step) is still compared.
+func ssmGuard(rep *vfReport, e **ssmEnv, ops, impl *[]string) {
+	ssmCasesStarted++
+	r := recover()
+	if r == nil {
+		return
+	}
+	a, ok := r.(ssmAbandoned)
+	if !ok {
+		panic(r)
+	}
+	ssmCasesAbandoned++
+	rep.Count("case-abandoned:machine-load")
+	rep.Note("case abandoned (machine load, not judged): %s", a.why)
+	if *e != nil {
+		*ops, *impl = (*e).ops, (*e).impl
+	}
+}
+
+// ssmFloor fails the run when most cases could not be set up.
+func ssmFloor(rep *vfReport) {
+	if ssmCasesAbandoned*2 > ssmCasesStarted {
+		rep.Fail("harness-could-not-run", fmt.Sprintf("%d of %d cases abandoned because of machine load", ssmCasesAbandoned, ssmCasesStarted), nil)
+	}
 }
 
 func (e *ssmEnv) emit(op, out string) { e.ops = append(e.ops, op); e.impl = append(e.impl, out) }
@@ -157,6 +303,12 @@ func ssmNewEnv(t *testing.T, rep *vfReport, r *vfRng, prop string, fk bool) *ssm
 	}
 	e := &ssmEnv{t: t, rep: rep, r: r, prop: prop, dir: dir, id: fmt.Sprintf("n%d", r.Intn(1<<30)), fk: fk, want: ssmRef{}, noSnapOnClose: true}
 	e.newStore()
+	defer func() { // an abandoned setup must not leave a store running
+		if r := recover(); r != nil {
+			e.cleanup()
+			panic(r)
+		}
+	}()
 	if err := e.s.Open(); err != nil {
 		t.Fatalf("open: %v", err)
 	}
@@ -164,7 +316,12 @@ func ssmNewEnv(t *testing.T, rep *vfReport, r *vfRng, prop string, fk bool) *ssm
 		t.Fatal(err)
 	}
 	e.waitReady()
-	mustExecute(t, e.s, []string{ssmCreate})
+	if err := ssmRetry(e.s, func() error {
+		_, _, err := e.s.Execute(context.Background(), executeRequestFromStrings([]string{ssmCreate}, false, false))
+		return err
+	}); err != nil {
+		e.opFailed("create table", err)
+	}
 	e.emit("reset", "ok")
 	return e
 }
@@ -183,20 +340,21 @@ func (e *ssmEnv) newStore() {
 
 // waitReady waits for leadership and for every durable log entry to be applied.
 func (e *ssmEnv) waitReady() {
-	if _, err := e.s.WaitForLeader(15 * time.Second); err != nil {
-		e.t.Fatalf("wait for leader: %v", err)
+	if _, err := e.s.WaitForLeader(60 * time.Second); err != nil {
+		ssmAbandonNow(fmt.Sprintf("wait for leader: %v", err))
 	}
 	var err error
-	for i := 0; i < 300; i++ {
+	for deadline := time.Now().Add(60 * time.Second); time.Now().Before(deadline); {
 		if err = e.s.Barrier(); err == nil {
 			return
 		}
 		time.Sleep(50 * time.Millisecond)
 	}
-	e.t.Fatalf("barrier: %v", err)
+	ssmAbandonNow(fmt.Sprintf("barrier: %v", err))
 }
 
 func (e *ssmEnv) cleanup() {
+	e.unpark(-1)
 	if e.s != nil && e.s.open.Is() {
 		e.s.Close(true)
 	}
@@ -277,9 +435,12 @@ func (e *ssmEnv) exec(tx bool, ss []ssmStmt) {
 	for _, s := range ss {
 		qs = append(qs, s.sql())
 	}
-	_, _, err := e.s.Execute(context.Background(), executeRequestFromStrings(qs, false, tx))
+	err := ssmRetry(e.s, func() error {
+		_, _, err := e.s.Execute(context.Background(), executeRequestFromStrings(qs, false, tx))
+		return err
+	})
 	if err != nil {
-		e.t.Fatalf("execute %v: %v", qs, err)
+		e.opFailed(fmt.Sprintf("execute %v", qs), err)
 	}
 	e.want = e.want.exec(tx, ss)
 	txs := "0"
@@ -334,7 +495,10 @@ func ssmMakeDB(t *testing.T, dir string, rows ssmRef, walMode bool) []byte {
 // load sends a database file through Store.Load (the LOAD command entry).
 func (e *ssmEnv) load(rows ssmRef, walMode bool) {
 	b := ssmMakeDB(e.t, e.dir, rows, walMode)
-	if err := e.s.Load(context.Background(), &proto.LoadRequest{Data: b}); err != nil {
+	if err := ssmRetry(e.s, func() error { return e.s.Load(context.Background(), &proto.LoadRequest{Data: b}) }); err != nil {
+		if ssmLoadRelated(err) {
+			ssmAbandonNow(fmt.Sprintf("load: %v", err))
+		}
 		e.rep.Fail("valid-load-rejected", fmt.Sprintf("history %v: load of a valid %d-byte database failed: %v", e.hist, len(b), err), map[string]interface{}{"history": e.hist})
 		return
 	}
@@ -359,9 +523,14 @@ func (e *ssmEnv) loadText(rows ssmRef) {
 	}
 	er := executeRequestFromStrings([]string{b.String()}, false, false)
 	er.Request.RollbackOnError = true
-	res, _, err := e.s.Execute(context.Background(), er)
+	var res []*proto.ExecuteQueryResponse
+	err := ssmRetry(e.s, func() error {
+		var err error
+		res, _, err = e.s.Execute(context.Background(), er)
+		return err
+	})
 	if err != nil {
-		e.t.Fatalf("text load: %v", err)
+		e.opFailed("text load", err)
 	}
 	for _, r := range res {
 		if r.GetError() != "" {
@@ -399,7 +568,10 @@ func ssmBadData(t *testing.T, dir string, r *vfRng, kind int) ([]byte, string) {
 // loadBad sends such bytes through Store.Load: it must be rejected and change nothing.
 func (e *ssmEnv) loadBad(kind int) {
 	b, name := ssmBadData(e.t, e.dir, e.r, kind)
-	err := e.s.Load(context.Background(), &proto.LoadRequest{Data: b})
+	err := ssmRetry(e.s, func() error { return e.s.Load(context.Background(), &proto.LoadRequest{Data: b}) })
+	if err != nil && ssmLoadRelated(err) {
+		ssmAbandonNow(fmt.Sprintf("invalid load: %v", err)) // not the rejection under test
+	}
 	e.hist = append(e.hist, "loadbad("+name+")")
 	e.rep.Count("op-loadbad-" + name)
 	if err == nil {
@@ -415,7 +587,10 @@ func (e *ssmEnv) loadBad(kind int) {
 
 func (e *ssmEnv) boot(rows ssmRef, walMode bool) {
 	b := ssmMakeDB(e.t, e.dir, rows, walMode)
-	if _, err := e.s.ReadFrom(bytes.NewReader(b)); err != nil {
+	if err := ssmRetry(e.s, func() error { _, err := e.s.ReadFrom(bytes.NewReader(b)); return err }); err != nil {
+		if ssmLoadRelated(err) {
+			ssmAbandonNow(fmt.Sprintf("boot: %v", err))
+		}
 		e.rep.Fail("valid-boot-rejected", fmt.Sprintf("history %v: boot failed: %v", e.hist, err), map[string]interface{}{"history": e.hist})
 		return
 	}
@@ -427,13 +602,13 @@ func (e *ssmEnv) boot(rows ssmRef, walMode bool) {
 
 // snapshot takes a user snapshot through raft; returns false when raft had nothing to do.
 func (e *ssmEnv) snapshot(trailing int) bool {
-	err := e.s.Snapshot(uint64(trailing))
+	err := ssmRetry(e.s, func() error { return e.s.Snapshot(uint64(trailing)) })
 	if err != nil {
 		if err == ErrNothingNewToSnapshot || err == ErrNoWALToSnapshot || strings.Contains(err.Error(), "nothing new to snapshot") {
 			e.rep.Count("snapshot-nothing-new")
 			return false
 		}
-		e.t.Fatalf("snapshot: %v (history %v)", err, e.hist)
+		e.opFailed("snapshot", err)
 	}
 	e.hist = append(e.hist, fmt.Sprintf("snap(%d)", trailing))
 	mt := trailing
@@ -446,6 +621,7 @@ func (e *ssmEnv) snapshot(trailing int) bool {
 }
 
 func (e *ssmEnv) closeStore() {
+	e.unpark(-1)
 	if err := e.s.Close(true); err != nil {
 		e.t.Fatalf("close: %v", err)
 	}
